@@ -479,7 +479,7 @@ def setup():
 
 
 NOT_APPLICABLE = {
-    "C07": "liveness/independence over task interleavings (stalled streams never block others): whole-history concurrency property, outside contract-based deductive verification (no Kani threads, Verus would need permission types on tokio internals).",
+    "C07": "liveness/independence over task interleavings (stalled streams never block others): whole-history concurrency property, outside contract-based deductive verification (no Kani threads, Verus would need permission types on tokio internals; 'a bounded queue slot is not held across a wait on the peer' is not expressible as a per-function contract without hand-inserted ghost plumbing). By reading and by a demonstration (findings/D7-observed, DESIGN section 2) the property does NOT hold on the unchanged tree: one stalled peer bidirectional stream blocks the acceptance of all later ones; this is an observation, not the verdict of a check.",
     "C08": "exactly-once delivery over mpsc queues, cancellation and multi-task accept: whole-history concurrency property, no per-call contract expresses it. The per-call piece is under contract in C17 (unit driver: each accept call returns the FIRST queued stream of its session, skipping none, inventing none; foreign streams are refused).",
 }
 
